@@ -24,6 +24,18 @@ pub fn sign(case: &Value, reg: &Registry) -> Value {
                     .sign(&signers)?
                     .build())
             }
+            "api" | "api_builder" => {
+                // the value is built through the public constructors/builders, not parsed
+                let meta = crate::api_build::build(&signed)
+                    .map_err(in_toto::Error::Programming)?;
+                if via == "api" {
+                    Metablock::new(meta, &signers)
+                } else {
+                    Ok(MetablockBuilder::from_metadata(meta.into_trait())
+                        .sign(&signers)?
+                        .build())
+                }
+            }
             "builder" => {
                 let meta: MetadataWrapper =
                     serde_json::from_str(&serde_json::to_string(&signed)?)?;
